@@ -743,7 +743,8 @@ def main(ctx, replay):
     if rc != 0:
         raise RuntimeError("dispatch-real failed: " + err[-2000:])
     REAL = {"ok": (0, 204), "e503": (0, 503), "e404": (0, 404), "e429": (0, 429), "redirect_not_followed_302": (0, 302),
-            "hang": (2, 0), "refused": (1, 0), "policy_https_only": (4, 0)}
+            "hang": (2, 0), "refused": (1, 0), "policy_https_only": (4, 0),
+            "e503_retry_after_90": (0, 503), "e429_retry_after_3600": (0, 429), "e503_retry_after_date": (0, 503), "e500_retry_after_120": (0, 500)}
     for r in json.loads(out):
         evaluations += 1
         kind, code = REAL[r["name"]]
@@ -755,6 +756,16 @@ def main(ctx, replay):
             C.report(ctx, "real-deliverer:%s" % r["name"], "real HTTPDeliverer result %s on attempt %d settled as %s/%s state %d; expected action %d" %
                      (r["name"], r["attempt"], r["action"], r["reason"], r["state"], want),
                      {"kind": "request", "case": {"target_behaviour": r["name"], "attempt": r["attempt"], "retry_max": 2}, "observed": r, "expected": {"action": want}})
+        elif want == 1:
+            # the retry is scheduled by the route's backoff (base 1 s, cap 1 m, no jitter): min(base * 2^(attempt-1), cap) after the failure,
+            # whatever the target's answer says about coming back later
+            back = min(10 ** 9 * 2 ** (r["attempt"] - 1), 60 * 10 ** 9)
+            if r.get("next_in_ns") != back:
+                C.report(ctx, "real-deliverer-backoff:%s" % r["name"],
+                         "real HTTPDeliverer result %s on attempt %d: the retry is scheduled %s ns after the failure; the route's backoff (exponential, base 1s, "
+                         "cap 1m, no jitter) prescribes %d ns" % (r["name"], r["attempt"], r.get("next_in_ns"), back),
+                         {"kind": "request", "case": {"target_behaviour": r["name"], "attempt": r["attempt"], "retry": "exponential max 2 base 1s cap 1m jitter 0"},
+                          "observed": r, "expected": {"next_in_ns": back}})
 
     tt, bt = [], []
     for _ in range(60 if ctx.tier == "quick" else 600):
